@@ -10,6 +10,7 @@ from specs import dexreader as R
 
 DEX = "androguard/core/dex/__init__.py"
 META = {
+    "technique": 'contract-based deductive verification: symbolic execution of the real functions against sidecar contracts (z3/cvc5) for the proved units; bounded contract evaluation (enumerated scope / independent writer) for the rest',
     "level": "other",
     "partial": True,
     "level_text": "Proof (carriers, symbolic bytes): ClassDataItem.__init__/_load_elements with EncodedField/EncodedMethod.__init__ and "
